@@ -11,6 +11,7 @@
 -/
 import UpdaterModel.Lemmas.Steps
 import UpdaterModel.Model.Panic
+import UpdaterModel.Gen.Consts
 
 namespace Updater
 
@@ -216,5 +217,11 @@ theorem never_panics (env : Env) (w : World) (ops : List Op) : runP env {} w ops
   | cons op ops ih =>
     simp only [runP, stepP_ok]
     exact ih _
+
+/-! ### the path components are the ones in the sources (regenerated from /repo on every run) -/
+
+theorem artifactPath_consts (storage : String) (n : Nat) :
+    artifactPath storage n =
+      joinPath (joinPath (joinPath storage.toByteArray Gen.patchesDirName) (toString n)) Gen.artifactFileName := rfl
 
 end Updater
